@@ -1259,6 +1259,10 @@ pub fn search(name: &str, seed: u64) -> Value {
                 (vec!["(defun H (A (@ Z (B C))) (if A Z (list B C)))"], "(H 1 (q 2 3 . 99))"),
                 (vec!["(defun H (A (@ Z (B C))) (if A Z (list B C)))"], "(H () (q 2 3 4))"),
                 (vec![], "(let ((pa 5) (pb 6)) (let* ((pc (+ pa pb)) (pd (* pc pc))) (list pa pb pc pd)))"),
+                // a repeated parameter name binds its first occurrence (as in compiled code)
+                (vec!["(defun F2 (A A) A)"], "(F2 1 2)"),
+                (vec!["(defun G2 ((@ A (A B))) (list A B))"], "(G2 (list 1 2))"),
+                (vec!["(defun H2 ((A B) (B C)) (list A B C))"], "(H2 (list 1 2) (list 3 4))"),
             ];
             for (d, e) in cases.iter() { if let Some(v) = chk_repl(d, e) { return v; } }
             let open_args = ["((1 2))", "((7 8 9))", "(((5 6) 11))"];
@@ -1271,9 +1275,13 @@ pub fn search(name: &str, seed: u64) -> Value {
                 (vec!["(defun c (x y) (+ x y))", "(defun second ((a b)) b)", "(defun g (n p) (if n (second p) 0))"], "(g 1 X)"),
                 (vec!["(defun-inline pair (a b) (c a b))", "(defun g (n p) (if n (pair (f p) (r p)) 0))"], "(g 1 X)"),
                 (vec!["(defun sum3 ((a b c)) (+ a b c))", "(defun g (n p) (if n (sum3 p) 0))"], "(g 2 X)"),
+                // direct calls (no if in between): the projections come from create_argument_captures
+                (vec!["(defun first-of ((a . b)) a)", "(defun f (x) 99)"], "(first-of X)"),
+                (vec!["(defun second-of ((a b)) b)", "(defun r (x) 98)"], "(+ 1 (second-of X))"),
+                (vec!["(defun pairup (a b) (list a b))", "(defun c (x y) 97)", "(defun both ((@ w (a b))) (pairup w a))"], "(both X)"),
             ];
             for (d, e) in open_cases.iter() { if let Some(v) = chk_repl_open(d, e, &open_args) { return v; } }
-            nf("13 closed REPL sessions and 7 open ones (residual compiled and compared on 3 argument trees, incl. helpers spelled like the operators f / r / c) (arithmetic, recursion, inline, assign destructuring of 3/4/nested patterns, rest args, @ capture, constants, let/let*) reduce to the constant the compiled cl21 program returns")
+            nf("16 closed REPL sessions and 10 open ones (residual compiled and compared on 3 argument trees, incl. helpers spelled like the operators f / r / c) (arithmetic, recursion, inline, assign destructuring of 3/4/nested patterns, rest args, @ capture, constants, let/let*) reduce to the constant the compiled cl21 program returns")
         }
         "classic_meaning" => {
             // programs without a dialect sigil go through the classic (CLVM-hosted) compiler
